@@ -323,7 +323,7 @@ class Run:
         self.bump("ops", len(self.trace))
         self.bump("universe_" + self.cfg["universe"])
         return {"viol": self.viol, "digest": digest_of([self.cfg, self.case["prog"], self.case.get("faults"), self.trace]),
-                "nontrivial": self.counters.get("probe:flush_with_changes", 0) > 0 or self.counters.get("ops", 0) > 5,
+                "nontrivial": self.counters.get("probe:flush_with_changes", 0) > 0,
                 "counters": self.counters, "sets": {"abstract_states": [[self.cfg["universe"], len(self.objs), len(self.trace) // 5]]},
                 "trace": self.trace[:60], "derive": getattr(self, "derive_info", None)}
 
@@ -411,6 +411,7 @@ class Run:
             self.prev_tables = now
         if out == "skip" or kind == "reset":
             return
+        self.bump("op:" + kind)              # operations that were carried out (not skipped): used by the non-triviality rules
         self.pk_mem = {e["label"]: OS.pk_of(e["obj"]) for e in self.entries() if self.in_session(e["obj"])}
         rolled_back = kind in ("rollback", "sp_rollback") or (isinstance(out, str) and out.endswith("Error"))
         self.check_lifecycle(i, kind, before, rolled_back)
